@@ -19,16 +19,15 @@
 (***************************************************************************)
 EXTENDS Addr, FiniteSets, TLC
 
-CONSTANT R            \* recursive index of the level-4 table, or -1 (mapped / offset kinds)
-
 VARIABLES root,       \* frame (Word) of the level-4 table
+          rix,        \* recursive index of the level-4 table, or -1 (mapped / offset kinds)
           ent,        \* [frame -> [index -> [addr: Word, flags: SUBSET 0..63]]], non-zero slots only
           amap,       \* ghost: what the history of successful calls dictates:
                       \*        [<<size class, page start>> -> [frame, flags]]
           free,       \* frames the allocator may hand out (inputs of the environment)
           lastClean   \* <<a, b>> if the previous call was a clean-up of that range, else <<>>
 
-vars == <<root, ent, amap, free, lastClean>>
+vars == <<root, rix, ent, amap, free, lastClean>>
 
 -----------------------------------------------------------------------------
 (* entry flag bits (Intel SDM vol. 3 ch. 4, AMD APM vol. 2 ch. 5) *)
@@ -170,7 +169,7 @@ MapPre(c, allocs) ==
     /\ P \in c.F /\ c.F \subseteq FlagBits /\ (c.s > 0 => HUGE \notin c.F)
     /\ P \in c.PF /\ HUGE \notin c.PF /\ c.PF \subseteq FlagBits
     /\ c.extra \subseteq {P, RW}
-    /\ IndexOf(c.page, 4) # R
+    /\ IndexOf(c.page, 4) # rix
     /\ \A j \in 1 .. Len(allocs) :
           allocs[j] # NoFrame => /\ allocs[j] \in free /\ allocs[j] \notin DOMAIN ent
                                  /\ \A k \in 1 .. Len(allocs) : k # j => allocs[k] # allocs[j]
@@ -226,13 +225,13 @@ SetFlagsSem(m, am, s, page, K, F) ==
 
 FlagsPre(s, page, F) ==
     /\ s \in SizeClass /\ Canonical(page) /\ LowZero(page, SizeBits(s))
-    /\ P \in F /\ F \subseteq FlagBits /\ IndexOf(page, 4) # R
+    /\ P \in F /\ F \subseteq FlagBits /\ IndexOf(page, 4) # rix
 ParentFlagsPre(F) == HUGE \notin F
 
 -----------------------------------------------------------------------------
 (* the tables of the hierarchy and clean-up (C10) *)
 
-L4Slots(m) == { i \in SlotsOf(m, root) : i # R /\ IsTable(Lookup(m, root, i)) }
+L4Slots(m) == { i \in SlotsOf(m, root) : i # rix /\ IsTable(Lookup(m, root, i)) }
 
 (* [f: frame, lvl, base: first virtual address covered, pf/pi: the slot that links it] *)
 Tables3(m) == { [f |-> Lookup(m, root, i).addr, lvl |-> 3, pf |-> root, pi |-> i,
